@@ -53,6 +53,15 @@ func ddEvent(stamp, size int) []byte {
 	return []byte(head + strings.Repeat("x", pay) + `"}`)
 }
 
+// FFEvent and DecodeFFStamps are used by the worker driver (drv/wk)
+func FFEvent(stamp, size int) []byte { return ffEvent(stamp, size) }
+
+// DecodeFFStamps decodes a Forward-mode message and returns the stamps of its events
+func DecodeFFStamps(data []byte) ([]int, bool) {
+	d := decodeFF(data, "Forward")
+	return d.stamps, d.ok
+}
+
 type decoded struct {
 	ok             bool
 	tag, id        string
